@@ -324,7 +324,15 @@ def run(ck, ctx):
                 tag = fname if len(copies) == 1 else f"{fname} [{mod.split('.')[-1]}]"
                 subs = [n for n in walk([r.value]) if n.op == "Subscript" and n.args[0].id in tab_ids and
                         n.args[1].op not in ("Const", "Slice")]
-                idxs = {g.vn(n.args[1]): n.args[1] for n in subs}
+                def ungathered(ix):
+                    # layer[mask]: the layer index of the selected elements - the same index term
+                    for _ in range(3):
+                        if ix.op == "Subscript" and _is_masklike(ix.args[1]):
+                            ix = ix.args[0]
+                        else:
+                            break
+                    return ix
+                idxs = {g.vn(ungathered(n.args[1])): ungathered(n.args[1]) for n in subs}
                 used = {tab_ids[n.args[0].id] for n in subs}
                 ck.ob("R19.2", f"{tag}: all layer tables are indexed by the same layer-index term", len(idxs) == 1,
                       r.value, fname, f"{len(subs)} table look-ups, {len(idxs)} distinct index term(s), tables {sorted(used)}")
@@ -553,6 +561,36 @@ def _count_form(I, idx, key_tab, n_layers):
         if len(pos) >= 2 and tail_slice(pos[0], False) and side in ("left", "right") and "sorter" not in kws:
             return ("<=" if side == "right" else "<", unbroadcast(pos[1]))
         return None
+    # zeros + (T[1] op x) + (T[2] op x) + ... : one comparison per layer base, added up
+    terms, stack = [], [n]
+    while stack:
+        y = strip(stack.pop())
+        if y.op == "BinOp" and y.attr == "Add":
+            stack += [y.args[0], y.args[1]]
+        else:
+            terms.append(y)
+    if len(terms) >= n_layers - 1 and all(
+            t.op == "Compare" or is_ext_call(t, "numpy.zeros", "numpy.zeros_like") or
+            (t.op == "Const" and t.attr == 0) for t in terms):
+        cmps = [t for t in terms if t.op == "Compare"]
+        seen_j, ops, xs = set(), set(), {}
+        flip = {"Lt": "Gt", "Gt": "Lt", "LtE": "GtE", "GtE": "LtE"}
+        sym = {"Lt": "<", "LtE": "<=", "Gt": ">", "GtE": ">="}
+        ok_ = True
+        for c in cmps:
+            a, b = c.args
+            op_ = c.attr
+            if b.op == "Subscript" and b.args[0] is key_tab:
+                a, b, op_ = b, a, flip.get(op_)
+            if not (a.op == "Subscript" and a.args[0] is key_tab and a.args[1].op == "Const" and
+                    type(a.args[1].attr) is int and op_ in sym):
+                ok_ = False
+                break
+            seen_j.add(a.args[1].attr)
+            ops.add(sym[op_])
+            xs[I.g.vn(b)] = b
+        if ok_ and len(cmps) == n_layers - 1 and seen_j == set(range(1, n_layers)) and len(ops) == 1 and len(xs) == 1:
+            return (next(iter(ops)), next(iter(xs.values())))
     cmp_ = None
     if is_ext_call(n, "numpy.count_nonzero", "numpy.sum"):
         pos, kws = call_args(n)
